@@ -271,7 +271,9 @@ class DataPacketReceiver(Elaboratable):
                     with m.If(data_bytes_remaining > 4):
                         m.d.ss += data_bytes_remaining.eq(data_bytes_remaining - 4)
 
-                    with m.Else():
+                    # Otherwise this was our last data word, and the CRC check is next -- unless we've
+                    # just bailed out above; a packet must not be reported a second time.
+                    with m.Elif((sink.ctrl & source.valid) == 0):
                         m.next = "CHECK_CRC32"
 
 
